@@ -160,6 +160,8 @@ def unhx(h):
 # ---------------------------------------------------------------- generators (compact encoding)
 
 BND = [0, 1, 2, (1 << 53) + 1, 1 << 63, U64 - 1, U64]
+_SRC = [v for c in source_constants() for v in (c - 1, c, c + 1)]      # values the code singles out
+BND = BND + [v for v in _SRC if v not in BND]
 
 
 def rq(rng):
@@ -187,6 +189,15 @@ def rtif(rng):
 
 def rorder(rng, oid=None, price=None, ts=None, kind=None):
     k = kind or rng.choice(gen.KINDS)
+    if ts is None and price is None and rng.random() < 0.25:
+        # an order as a trading system would build it (wall-clock ms timestamp, GTD in epoch seconds, crate defaults)
+        t0 = rng.randint(1_600_000_000_000, 1_800_000_000_000)
+        c = source_constants() or [80]
+        tf = ("GTD%d" % (t0 // 1000 + rng.randint(0, 5 * 365 * 86400)) if rng.random() < 0.5 else rng.choice(["GTC", "IOC", "FOK", "DAY"]))
+        return gen.order(k, oid=oid or roid(rng), price=rng.randint(1, 100000), side=rng.choice("BS"), ts=t0, tif=tf,
+                         vis=rng.randint(0, 1000), hid=rng.randint(0, 1000), thr=rng.choice([0, 1, rng.choice(c)]),
+                         amt=rng.choice([None, rng.choice(c), rng.choice(c), rng.randint(0, 100)]), auto=rng.random() < 0.6,
+                         trail=rng.randint(0, 500), lastref=rng.randint(1, 100000), off=rng.randint(-50, 50), peg=rng.choice(gen.PEGS))
     return gen.order(k, oid=oid or roid(rng), price=rq(rng) if price is None else price, side=rng.choice("BS"),
                      ts=rq(rng) if ts is None else ts, tif=rtif(rng), vis=rq(rng), hid=rq(rng), thr=rq(rng),
                      amt=rng.choice([None, rq(rng)]), auto=rng.random() < 0.5, trail=rq(rng), lastref=rq(rng),
